@@ -58,6 +58,13 @@ func c18History(r *rand.Rand, n int) Case {
 	var descs, coqs, obs []string
 	readded := false
 	unnamedSeen := 0
+	// tags are compared as whole strings: a third of the histories use tags that contain one another
+	c18Tags := c18Tags
+	if r.Intn(3) == 0 {
+		c18Tags = []string{"prod", "preprod", "pro"}
+	}
+	// the document OBJECT currently stored under a name (a caller may re-register the very object, e.g. to re-tag it)
+	objs := map[string]dom.ContainerBuilder{}
 	for i := 0; i < n; i++ {
 		pn := guard(func() {
 			switch r.Intn(10) {
@@ -90,6 +97,12 @@ func c18History(r *rand.Rand, n int) Case {
 				r.Shuffle(len(opts), func(a, b int) { opts[a], opts[b] = opts[b], opts[a] })
 				unnamed := r.Intn(6) == 0 || (c18ManyUnnamed && r.Intn(4) != 0)
 				via := r.Intn(3)
+				var sameObj dom.ContainerBuilder
+				if !unnamed && objs[name] != nil && ref.ctx[name] != nil && r.Intn(4) == 0 {
+					sameObj = objs[name]
+					doc = ref.ctx[name].doc
+					via = 3
+				}
 				if via == 0 && !unnamed && r.Intn(4) == 0 {
 					// a reader add that is rejected (undecodable text, longer than any read-ahead) changes nothing,
 					// not even for the adds that follow
@@ -107,8 +120,17 @@ func c18History(r *rand.Rand, n int) Case {
 					var b bytes.Buffer
 					_ = yaml.NewEncoder(&b).Encode(doc)
 					err = ds.AddDocumentFromReader(name, &b, dom.DefaultYamlDecoder, opts...)
+				} else if sameObj != nil {
+					err = ds.AddDocument(name, sameObj, opts...)
 				} else {
-					err = ds.AddDocument(name, anyToContainer(doc), opts...)
+					cb := anyToContainer(doc)
+					err = ds.AddDocument(name, cb, opts...)
+					if err == nil && (ref.ctx[name] == nil || pol != 1) {
+						objs[name] = cb
+					}
+				}
+				if !unnamed && via == 0 && err == nil && (ref.ctx[name] == nil || pol != 1) {
+					delete(objs, name) // stored object came from the reader: not ours
 				}
 				// reference
 				ex := ref.ctx[name]
@@ -226,6 +248,48 @@ func c18History(r *rand.Rand, n int) Case {
 		Fail: fail, Nontrivial: readded}
 }
 
+// a reader source of more than a mebibyte is a document like any other: every key is there
+func c18BigReader(r *rand.Rand, idx int) Case {
+	n := 30000 + r.Intn(5000)
+	var sb strings.Builder
+	asJSON := r.Intn(3) == 0
+	if asJSON {
+		sb.WriteString("{")
+	}
+	for i := 0; i < n; i++ {
+		if asJSON {
+			if i > 0 {
+				sb.WriteString(",")
+			}
+			fmt.Fprintf(&sb, "\"key%06d\": \"value-%06d-padding-padding\"", i, i)
+		} else {
+			fmt.Fprintf(&sb, "key%06d: value-%06d-padding-padding\n", i, i)
+		}
+	}
+	if asJSON {
+		sb.WriteString("}")
+	}
+	text := sb.String()
+	ds := analytics.NewDocumentSet()
+	var fail []string
+	var err error
+	dec := dom.DefaultYamlDecoder
+	if asJSON {
+		dec = dom.DefaultJsonDecoder
+	}
+	if pn := guard(func() { err = ds.AddDocumentFromReader("big", strings.NewReader(text), dec) }); pn != "" {
+		fail = append(fail, "panic: "+pn)
+	}
+	if err != nil {
+		fail = append(fail, fmt.Sprintf("a valid %d-byte document was rejected: %v", len(text), err))
+	} else if d := ds.NamedDocument("big"); d == nil || reflect.ValueOf(d).IsNil() {
+		fail = append(fail, "document missing after a successful reader add")
+	} else if m, ok := nodeToAny(d).(map[string]any); !ok || len(m) != n || m[fmt.Sprintf("key%06d", n-1)] != fmt.Sprintf("value-%06d-padding-padding", n-1) {
+		fail = append(fail, fmt.Sprintf("a %d-byte source with %d keys was registered with %d keys", len(text), n, len(m)))
+	}
+	return Case{Kind: "big-reader", Desc: map[string]any{"bytes": len(text), "keys": n, "json": asJSON}, Fail: fail, Nontrivial: true, Key: fmt.Sprint("big", n, asJSON)}
+}
+
 func init() {
 	register(&Prop{
 		ID:   "C18",
@@ -241,6 +305,9 @@ func init() {
 					docs = append(docs, genDoc(r, o))
 				}
 				return c18MergeFiles(r, idx, docs)
+			}
+			if idx%128 == 5 {
+				return c18BigReader(r, idx)
 			}
 			if idx%8 == 3 {
 				c18ManyUnnamed = true
